@@ -180,8 +180,21 @@ def c14(tier, seed):
     )
 
 
+def c09(tier, seed):
+    return generic(
+        "C09", tier, seed, budgets=(60, 900),
+        rule="call sequences over {start(fresh|duplicate|empty|65536 B|65537 B), append(open|ended|never-issued id; sizes 0,1,chunk+-1; exact|short|long source), "
+             "end(open|ended|never), add, flush, finalize}: all sequences up to length 3 (quick) / 4 (thorough) and sampled sequences of 6..40 calls on 4 layer combos; "
+             "twin writers (W1 gets every call, W2 only those the reference model accepts) are finalized and compared through the reader and the independent decoder; "
+             "distinct = distinct (layers, sequence); non-trivial = at least 2 calls",
+        musthit=["call:duplicate-name", "call:name-too-long", "call:append-short-source", "call:append-ended-or-unknown-id", "call:finalize-with-open-file",
+                 "call:start-after-finalize", "continued_after_refusal", "twin_comparisons_after_refusal"],
+    )
+
+
 PROPS = {
     "C01": c01,
+    "C09": c09,
     "C12": c12,
     "C13": c13,
     "C14": c14,
